@@ -98,6 +98,7 @@ def canrep(q):
         except OverflowError:
             pass
     reps.append("jsonNumber")
+    reps.append("jsonNumberE")   # the same value spelled with an exponent: "<exact>e0"
     return reps
 
 for n, q in zip(nums, vals):
